@@ -89,6 +89,18 @@ def arrays_equal(a, b, rtol=0.0, atol=0.0):
     if a.shape != b.shape:
         return False
     if a.dtype == object or b.dtype == object or a.dtype.kind in "US" or b.dtype.kind in "US":
+        if a.dtype == object or b.dtype == object:
+            for x, y in zip(a.ravel().tolist(), b.ravel().tolist()):
+                if x is y:
+                    continue
+                if isinstance(x, float) and isinstance(y, float) and x != x and y != y:
+                    continue  # NaN in an object array
+                try:
+                    if not bool(x == y):
+                        return False
+                except Exception:  # noqa: BLE001
+                    return False
+            return True
         return bool(numpy.all(a == b))
     if rtol == 0.0 and atol == 0.0:
         return bool(numpy.array_equal(a, b, equal_nan=True))
